@@ -100,11 +100,13 @@ _Bool MemoryPoolList_ResourceManager__SlotData__increaseCapacity(PoolList *self,
   g_inc_called = 1;
   if (!g_inc_ok) return 0;
   unsigned oc = self->capacity_;
-  Pool *nt = malloc((size_t)oc * 2 * sizeof(Pool));
+  if ((uint64_t)oc >= MAXPOOLS) return 0;          /* contract: never beyond maxPools */
+  unsigned nc = (uint64_t)oc * 2 > MAXPOOLS ? (unsigned)MAXPOOLS : oc * 2;
+  Pool *nt = malloc((size_t)heap_cap_k * 2 * sizeof(Pool)); /* constant-size block (>= nc entries) */
   __CPROVER_assume(nt != 0);
-  memcpy(nt, self->pools_, (size_t)oc * sizeof(Pool));
+  for (unsigned i = 0; i < heap_cap_k; i++) if (i < oc) nt[i] = self->pools_[i]; /* entries preserved (contract of increaseCapacity) */
   self->pools_ = nt;
-  self->capacity_ = (__typeof__(self->capacity_))(oc * 2);
+  self->capacity_ = (__typeof__(self->capacity_))nc;
   return 1;
 }
 typedef __typeof__(((Pool *)0)->capacity_) slotcount_t; /* SlotCount of this configuration */
@@ -124,7 +126,6 @@ void h_addPool(void) {
   __CPROVER_assume(j < l->count_);
   Pool ej = l->pools_[j];
   unsigned old_count = l->count_, old_cap = l->capacity_;
-  __CPROVER_assume((uint64_t)old_cap * 2 <= MAXPOOLS || old_count < old_cap); /* WF: the table can only be full below maxPools */
   g_inc_ok = in_bool(); g_create_ok = in_bool();
   struct Allocator *a = verif_allocator(0);
   g_expected_allocator = a;
@@ -148,7 +149,7 @@ void h_addPool(void) {
 #endif
     CHECK(l->count_ <= l->capacity_ && (uint64_t)l->count_ <= MAXPOOLS, "count_ stays within capacity_ and maxPools");
   } else {
-    CHECK(g_inc_called && !g_inc_ok, "addPool fails only when the table cannot grow");
+    CHECK(g_inc_called && (!g_inc_ok || (uint64_t)old_cap >= MAXPOOLS), "addPool fails only when the table cannot grow");
     CHECK(l->count_ == old_count && l->capacity_ == old_cap, "failed addPool changes neither count nor capacity");
   }
 }
@@ -182,9 +183,10 @@ void h_increaseCapacity(void) {
 #ifdef CANARY_GROW
   CHECK(j != 0, "canary: deliberately false for j == 0");
 #endif
-  if ((uint64_t)old_cap == MAXPOOLS) CHECK(!ok && g_alloc_calls + g_realloc_calls == 0, "at maxPools the table never grows and the allocator is not asked");
+  CHECK((uint64_t)MemoryPoolList_ResourceManager__SlotData__maxPools == MAXPOOLS, "C19: the code's maxPools is the number of pools needed for NULL_SLOT slots (ids 0..NULL_SLOT-1), whatever the pool capacity");
+  if ((uint64_t)old_cap >= MAXPOOLS) CHECK(!ok && g_alloc_calls + g_realloc_calls == 0, "at maxPools the table never grows and the allocator is not asked");
   if (ok) {
-    CHECK((uint64_t)l->capacity_ == (uint64_t)old_cap * 2, "capacity doubles without wrapping");
+    CHECK((uint64_t)l->capacity_ == ((uint64_t)old_cap * 2 > MAXPOOLS ? MAXPOOLS : (uint64_t)old_cap * 2) && l->capacity_ > old_cap, "capacity doubles, clamped to maxPools, without wrapping");
     CHECK((uint64_t)l->capacity_ <= MAXPOOLS, "C19: the table never exceeds maxPools entries");
     CHECK(l->pools_ != l->preallocatedPools_, "a grown table lives on the heap");
     CHECK(l->pools_[j].slots_ == ej.slots_ && l->pools_[j].capacity_ == ej.capacity_ && l->pools_[j].usage_ == ej.usage_,
